@@ -126,6 +126,21 @@ func Eval(scope *slip.Scope, src string) Outcome {
 	})
 }
 
+// EvalForms reads src and evaluates the top-level forms one after another; unlike Code.Eval a top-level
+// nil form evaluates to nil instead of being skipped.
+func EvalForms(scope *slip.Scope, src string) Outcome {
+	return Try(func() (result slip.Object) {
+		for _, obj := range slip.ReadString(src, scope) {
+			if obj == nil {
+				result = nil
+				continue
+			}
+			result = obj.Eval(scope, 0)
+		}
+		return
+	})
+}
+
 // MustEval evaluates and panics on anything but a value (harness set-up).
 func MustEval(scope *slip.Scope, src string) slip.Object {
 	o := Eval(scope, src)
